@@ -35,8 +35,11 @@ NAMES = ['AT Translated Set 2 keyboard', 'Logitech USB Optical Mouse', 'Razer De
 # one of them in bit 63 of the word
 COUNT_LOW = '%015x' % (sum(1 << b for b in range(1, 18)) | (1 << 28) | (1 << 30))
 SYSFS = ['/devices/platform/i8042/serio0/input/input3', '/devices/pci0000:00/0000:00:14.0/usb1/1-2/1-2:1.0/0003:046D:C077.0001/input/input7',
-         '/devices/pci0000:00/0000:00:14.0/usb1/1-3/input/input9', '/devices/virtual/input/input20', '/devices/virtual/input/input21']
-DEVNODE = {SYSFS[0]: '/dev/input/event3', SYSFS[1]: '/dev/input/event7', SYSFS[2]: '/dev/input/event9', SYSFS[3]: '/dev/input/event20', SYSFS[4]: None}
+         '/devices/pci0000:00/0000:00:14.0/usb1/1-3/input/input9', '/devices/virtual/input/input20', '/devices/virtual/input/input21',
+         # a Bluetooth (uhid) keyboard: under /devices/virtual/ but not in the virtual *input* tree, so it is a real keyboard
+         '/devices/virtual/misc/uhid/0005:046D:B342.0008/input/input34']
+DEVNODE = {SYSFS[0]: '/dev/input/event3', SYSFS[1]: '/dev/input/event7', SYSFS[2]: '/dev/input/event9', SYSFS[3]: '/dev/input/event20', SYSFS[4]: None,
+           SYSFS[5]: '/dev/input/event34'}
 EVS = ['120013', '1f', '3', None]
 PATTERNS = [[], ['*Mouse*'], ['Yubico*'], ['*'], ['?T Translated*', 'Razer*'], ['AT Translated Set 2 keyboard'], ['*keyboard', 'Power?Button'],
             ['SINO WEALTH Gaming KB ', '*"quoted"'], ['*KB']]
@@ -138,26 +141,26 @@ def gen_entry(it, idx, stage):
         return Entry(NAMES[2], SYSFS[(idx + 1) % 3], '1f', MOUSE_KEYS_SCROLL, list('NPSUHEK'))
     if stage == 'structure':
         # realistic entries; presence and order of the lines is the symbolic part
-        kind = pick(['kbd', 'mouse-kbdlike', 'power', 'virtual-kbd', 'noname-kbd'])
-        name = {'kbd': NAMES[0], 'mouse-kbdlike': NAMES[2], 'power': NAMES[3], 'virtual-kbd': NAMES[7], 'noname-kbd': None}[kind]
-        key = {'kbd': KBD_KEYS, 'mouse-kbdlike': MOUSE_KEYS_SCROLL, 'power': POWER_KEYS, 'virtual-kbd': KBD_KEYS, 'noname-kbd': KBD_KEYS}[kind]
-        ev = {'kbd': '120013', 'mouse-kbdlike': '1f', 'power': '3', 'virtual-kbd': '120013', 'noname-kbd': '120013'}[kind]
-        sysfs = SYSFS[3] if kind == 'virtual-kbd' else SYSFS[idx % 3]
+        kind = pick(['kbd', 'mouse-kbdlike', 'power', 'virtual-kbd', 'noname-kbd', 'bt-kbd'])
+        name = {'kbd': NAMES[0], 'mouse-kbdlike': NAMES[2], 'power': NAMES[3], 'virtual-kbd': NAMES[7], 'noname-kbd': None, 'bt-kbd': NAMES[0]}[kind]
+        key = {'kbd': KBD_KEYS, 'mouse-kbdlike': MOUSE_KEYS_SCROLL, 'power': POWER_KEYS, 'virtual-kbd': KBD_KEYS, 'noname-kbd': KBD_KEYS, 'bt-kbd': KBD_KEYS}[kind]
+        ev = {'kbd': '120013', 'mouse-kbdlike': '1f', 'power': '3', 'virtual-kbd': '120013', 'noname-kbd': '120013', 'bt-kbd': '120013'}[kind]
+        sysfs = SYSFS[3] if kind == 'virtual-kbd' else SYSFS[5] if kind == 'bt-kbd' else SYSFS[idx % 3]
         order = pick([list('NPSUHEK'), list('NPSUHKE'), list('NSK'), list('SNEK'), list('NPUHEK'), list('NSEJK'), list('KNSE'), list('NSHK')])
         if it.choose(2) == 1:
             ev = None
         e = Entry(name, sysfs, ev, key, order)
         # ground truth for realistic entries whose S: and N: lines precede the B: KEY= line (as the kernel prints them)
         if 'S' in order and order.index('S') < order.index('K') and ('N' not in order or order.index('N') < order.index('K')):
-            e.truth = {'kbd': True, 'noname-kbd': True, 'virtual-kbd': True, 'mouse-kbdlike': False, 'power': False}[kind]
-            if kind in ('kbd', 'virtual-kbd') and 'N' not in order:
+            e.truth = {'kbd': True, 'noname-kbd': True, 'virtual-kbd': True, 'mouse-kbdlike': False, 'power': False, 'bt-kbd': True}[kind]
+            if kind in ('kbd', 'virtual-kbd', 'bt-kbd') and 'N' not in order:
                 e.truth = True
         return e
     if stage == 'names':
         name = pick(NAMES)
         key = pick([KBD_KEYS, MOUSE_KEYS_SCROLL, POWER_KEYS, FEW_KEYS])
         ev = pick(EVS)
-        sysfs = pick([SYSFS[idx % 3], SYSFS[3]])
+        sysfs = pick([SYSFS[idx % 3], SYSFS[3], SYSFS[5]])
         return Entry(name, sysfs, ev, key, list('NPSUHEK'))
     if stage == 'masks':
         # symbolic hex digits: the KEY-mask digit holding ENTER/A and the EV-mask digit holding the LED bit
